@@ -124,3 +124,75 @@ Example c18_expr_example : forall fx,
   /\ run_pipeline fx ex18_cfg (Some repo_budget) ex18_eval (fun v => Ok v) (fun f => false) ex_facts ex18_state
      = PErr EValidate.
 Proof. intros fx. destruct fx; vm_compute; repeat split; reflexivity. Qed.
+
+(* ---- components with several validated properties ---------------------------------------- *)
+
+(* A component with ONE property is the one-property pipeline of the theorems above. *)
+Theorem c18_component_single : forall fx cfg budget order p,
+  run_component fx cfg budget order [p] =
+  match run_stages fx cfg budget (cp_eval p) (cp_decode p) (cp_verdict p) order (cp_state p) with
+  | POk st => COk [cp_with p st]
+  | PErr e => CErr e
+  end.
+Proof. exact run_component_single. Qed.
+
+(* The validate processor, handed all properties of a component, fails start-up exactly when AT
+   LEAST ONE of them violates its constraints - wherever it stands among the others (a valid struct
+   in front of a violating scalar changes nothing) - and otherwise leaves every property alone. *)
+Theorem c18_component_validate_any : forall fx cfg budget ps,
+  stage_all fx cfg budget id_validate ps =
+  if existsb cp_violates ps then CErr EValidate else COk ps.
+Proof. exact stage_all_validate. Qed.
+
+(* ---- components that are post processors themselves --------------------------------------- *)
+
+(* An eager post-processor component (participant id_holder) is created while the sorted sequence
+   is being activated: every processor whose class / Order() lies strictly below the holder's is
+   active at that moment.  For an UNORDERED holder that is every Priority-ordered and every Ordered
+   processor: the complete built-in pipeline, validation included. *)
+Theorem c18_holder_sees_earlier_processors : forall a facts, a <> id_holder ->
+  count_pid a facts = 1%nat -> count_pid id_holder facts = 1%nat -> lt_ids a id_holder facts = true ->
+  In a (active_order facts).
+Proof. exact active_when_lt. Qed.
+
+(* every other component is created with the whole sequence active *)
+Theorem c18_other_components_see_all : forall facts,
+  ~ In id_holder (stage_order facts) -> active_order facts = stage_order facts.
+Proof. intros facts H. unfold active_order. apply before_id_notin. exact H. Qed.
+
+(* ---- non-vacuity ----------------------------------------------------------------------- *)
+
+Definition ex18_prop (lit : bytes) (verdict : bool) : cprop :=
+  mkCProp (fun _ => Err) (fun v => Ok v) (fun _ => verdict) (mkPState TValue lit lit true true None).
+
+(* value:"7,validate=..." judged valid, in front of value:"3,validate=..." judged violating: start-up
+   fails in validation, in this order and in the other; with both valid it succeeds *)
+Example c18_component_single_example : forall fx,
+  run_component fx ex18_cfg (Some repo_budget) (stage_order ex_facts) [ex18_prop [51]%N false] = CErr EValidate
+  /\ run_stages fx ex18_cfg (Some repo_budget) (fun _ => Err) (fun v => Ok v) (fun _ => false) (stage_order ex_facts)
+       (mkPState TValue [51]%N [51]%N true true None) = PErr EValidate.
+Proof. intros fx. destruct fx; vm_compute; split; reflexivity. Qed.
+
+Example c18_component_example : forall fx,
+  run_component fx ex18_cfg (Some repo_budget) (stage_order ex_facts) [ex18_prop [55]%N true; ex18_prop [51]%N false]
+    = CErr EValidate
+  /\ run_component fx ex18_cfg (Some repo_budget) (stage_order ex_facts) [ex18_prop [51]%N false; ex18_prop [55]%N true]
+    = CErr EValidate
+  /\ (exists ps, run_component fx ex18_cfg (Some repo_budget) (stage_order ex_facts)
+                   [ex18_prop [55]%N true; ex18_prop [51]%N true] = COk ps
+                 /\ map (fun p => ps_field (cp_state p)) ps = [Some (VDec 7 0); Some (VDec 3 0)]).
+Proof.
+  intros fx. destruct fx; (split; [vm_compute; reflexivity|]); (split; [vm_compute; reflexivity|]);
+    eexists; split; vm_compute; reflexivity.
+Qed.
+
+(* the facts of /repo with a user post-processor component: unordered - validation (id 4) is active
+   when it is created; Ordered with Order 5 < OrderValidate - the binders are active, validation is
+   not; Priority-ordered with Order 1 - nothing is *)
+Example c18_holder_example :
+  In id_validate (active_order (ex_facts ++ [mkPart id_holder Unord]))
+  /\ lt_ids id_validate id_holder (ex_facts ++ [mkPart id_holder Unord]) = true
+  /\ filter relevant (active_order (ex_facts ++ [mkPart id_holder (Ord 5)])) = [0; 1; 3; 2]%nat
+  /\ active_order (ex_facts ++ [mkPart id_holder (Prio 1)]) = []
+  /\ active_order ex_facts = stage_order ex_facts.
+Proof. vm_compute. repeat split; try reflexivity. auto 20. Qed.
